@@ -386,8 +386,13 @@ func (obj *Real64) UnmarshalJSON(data []byte) error {
   if err := json.Unmarshal(data, &r); err == nil {
     obj.Value = r.Value
     if len(r.Derivative) != 0 && len(r.Hessian) != 0 {
-      if len(r.Derivative) != len(r.Derivative) {
+      if len(r.Hessian) != len(r.Derivative) {
         return fmt.Errorf("invalid json scalar representation")
+      }
+      for i := 0; i < len(r.Hessian); i++ {
+        if len(r.Hessian[i]) != len(r.Derivative) {
+          return fmt.Errorf("invalid json scalar representation")
+        }
       }
       obj.Alloc(len(r.Derivative), 2)
       obj.Derivative = r.Derivative
